@@ -34,6 +34,11 @@ def programs():
         {"k": "child", "body": [{"k": "par", "cfg": ac, "branches": [SLOW(2, 3), S(4)]}]}]})
     out.append({"name": "par3-maxc2", "seq": [{"k": "par", "cfg": {"cc": "all_completed", "maxc": 2},
                                               "branches": [SLOW(2, "a") + S("a2"), S("b") + S("b2"), S("c") + SLOW(1, "c2")]}]})
+    out.append({"name": "par[S.W.S|slow]", "seq": P.U("Psw") + S("t")})
+    out.append({"name": "par[S.R|slow]", "seq": P.U("Prs")})
+    out.append({"name": "map-in-par[S.W.S|slow]", "seq": [{"k": "par", "cfg": ac, "branches": [
+        [{"k": "map", "items": [1, 2], "cfg": ac, "body": S("m")}, {"k": "wait", "s": 1}, {"k": "step", "fn": {"ret": "after"}}],
+        SLOW(4, "slow")]}]})
     out.append({"name": "wfc+invoke+W+S", "seq": P.U("N") + P.U("I") + P.U("W") + S(9)})
     out.append({"name": "par[R|W.S]", "seq": [{"k": "par", "cfg": ac, "branches": [P.U("R"), [{"k": "wait", "s": 1}] + S("z")]}]})
     out.append({"name": "first[fast|slow.S]+S", "seq": [{"k": "par", "cfg": {"cc": "first"}, "branches": [S("w"), SLOW(2, "l") + S("l2")]}] + S("after")})
@@ -176,7 +181,7 @@ def run(ctx):
                               "replay": {"cross_unit": True}})
             rev.setdefault(i, p)
     cov["distinct_positions"] = len(glob)
-    cov["bounds"] = ("13 program shapes (nesting <=3, <=3 branches/items, sibling maps, child-in-branch-in-map, callbacks inside "
+    cov["bounds"] = ("16 program shapes (nesting <=3, <=3 branches/items, sibling maps, child-in-branch-in-map, callbacks inside "
                      "branches, max_concurrency, early completion); per shape every single crash point, every schedule with "
                      "<=1 (quick) / <=2 (thorough) deviations, policies rtb/low/high/rr; the relation position->id is "
                      "checked within each execution, across all executions of a unit and across all programs")
